@@ -202,6 +202,8 @@ pub struct Sim {
     pub snapshot: Option<String>,
     pub pair_answer: Option<(bool, String)>,
     pub pair_done: bool,
+    /// virtual time of the last fork / branch switch of a peer
+    pub last_reorg_at: Option<u64>,
     /// C17 readers: how many further events run while the reader is parked
     pub pair_span: u64,
     pub stop: bool,
@@ -290,6 +292,7 @@ impl Sim {
             snapshot: None,
             pair_answer: None,
             pair_done: false,
+            last_reorg_at: None,
             pair_span: plan_span,
             stop: false,
             writes_seen: 0,
@@ -1255,6 +1258,7 @@ impl Sim {
                     extra += 1;
                 }
                 self.stat("world.fork");
+                self.last_reorg_at = Some(self.now);
             }
             Action::SideFork { src, back, n } => {
                 self.last_event_kind = "sidefork".into();
@@ -1305,6 +1309,7 @@ impl Sim {
                 }
                 self.peers[peer].branch = branch;
                 self.stat("world.peer_switch_branch");
+                self.last_reorg_at = Some(self.now);
                 self.refresh_view(peer, true);
             }
             Action::Connect { peer } => {
